@@ -10,6 +10,7 @@ __all__ = [
 import sys
 import unittest
 
+from testtools import _veriftrace
 from testtools.testresult import ExtendedToOriginalDecorator
 
 
@@ -100,6 +101,9 @@ class RunTest:
         :param result: A testtools.TestResult to report activity to.
         :return: The result object the test was run against.
         """
+        if _veriftrace.enabled:
+            self._verif_run = _veriftrace.next_run()
+            _veriftrace.emit("run", run=self._verif_run, res=id(result), runner=type(self).__name__)
         result.startTest(self.case)
         self.result = result
         try:
@@ -110,15 +114,26 @@ class RunTest:
                 # One or more caught exceptions, now trigger the test's
                 # reporting method for just one.
                 e = self._exception_to_report()
+                if _veriftrace.enabled:
+                    _veriftrace.emit(
+                        "select",
+                        run=self._verif_run,
+                        chosen=_veriftrace.classify(e, self.handlers),
+                        kinds=[_veriftrace.classify(x, self.handlers) for x in self._exceptions],
+                    )
                 for exc_class, handler in self.handlers:
                     if isinstance(e, exc_class):
                         handler(self.case, self.result, e)
                         break
                 else:
                     self.last_resort(self.case, self.result, e)
+                    if _veriftrace.enabled:
+                        _veriftrace.emit("propagate", run=self._verif_run)
                     raise e
         finally:
             result.stopTest(self.case)
+            if _veriftrace.enabled:
+                _veriftrace.emit("end", run=self._verif_run)
         return result
 
     def _exception_to_report(self):
@@ -216,6 +231,8 @@ class RunTest:
         :return: Either whatever 'fn' returns or ``exception_caught`` if
             'fn' raised an exception.
         """
+        if _veriftrace.enabled:
+            _veriftrace.emit("unit", run=getattr(self, "_verif_run", 0), name=getattr(fn, "__name__", "?"))
         try:
             return fn(*args, **kwargs)
         except BaseException:
@@ -243,6 +260,10 @@ class RunTest:
         finally:
             del exc_info
         self._exceptions.append(e)
+        if _veriftrace.enabled:
+            _veriftrace.emit(
+                "caught", run=getattr(self, "_verif_run", 0), kind=_veriftrace.classify(e, self.handlers)
+            )
         # Yes, this means we catch everything - we re-raise KeyBoardInterrupt
         # etc later, after tearDown and cleanUp - since those may be cleaning up
         # external processes.
